@@ -7,6 +7,7 @@ import Csvq.Props.C01
 import Csvq.Lemmas.SessionHist
 import Csvq.Gen.CacheFacts
 import Csvq.Ref.CacheFacts
+import Csvq.Gen.FsProto
 namespace Csvq.C20
 open Csvq.Session
 
@@ -205,5 +206,22 @@ example : (step (runOps (fresh (fun _ => some [1]))
   have := read_stable (runOps (fresh (fun _ => some [1])) [Op.select 0]) 0 ⟨[1], false⟩ hc
     [.other 0 [7, 7], .other 0 [8]] (by intro op h; simp at h; rcases h with rfl | rfl <;> trivial)
   simpa [runOps] using this
+
+/-- The model lets another process commit to a file only while this transaction holds no lock on it, and a
+    locked (re)load reads the disk as it is at that moment.  That is the code's behaviour only if the file is
+    opened AFTER the lock has been obtained: a descriptor opened while still waiting would be the file another
+    process replaces by its rename-commit.  In the regenerated NewHandlerForUpdate nothing is opened before
+    the lock file exists, and the first thing after it is the open of the table. -/
+theorem gen_locked_load_opens_after_lock :
+    (Csvq.Gen.fxNewHandlerForUpdate.takeWhile (· != "control_file(Lock)")).all
+        (fun s => s ∈ ["exists(h.path)", "if[!Exists(h.path)]{", "return", "}"]) = true
+    ∧ ((Csvq.Gen.fxNewHandlerForUpdate.dropWhile (· != "control_file(Lock)")).filter
+        (fun s => s ∉ ["if{", "}", "return", "release_isolated"])).take 2
+        = ["control_file(Lock)", "open_exclusive(path)"] := by decide
+
+/-- the same for a plain read: the read lock is registered before the file is opened -/
+theorem gen_plain_load_opens_after_rlock :
+    (Csvq.Gen.fxNewHandlerForRead.filter (fun s => s ∈ ["control_file(RLock)", "open_shared(h.path)"]))
+      = ["control_file(RLock)", "open_shared(h.path)"] := by decide
 
 end Csvq.C20
